@@ -612,8 +612,6 @@ class io_epoll_context::read_sender {
 
       UNIFEX_ASSERT(static_cast<completion_base&>(self).enqueued_.load() == 0);
 
-      self.stopCallback_.destruct();
-
       auto oldState = self.state_.fetch_add(
           io_epoll_context::read_sender::operation<Receiver>::io_flag,
           std::memory_order_acq_rel);
@@ -622,9 +620,13 @@ class io_epoll_context::read_sender {
                Receiver>::cancel_pending_mask) != 0) {
         // io has been cancelled by a remote thread.
         // The other thread is responsible for enqueueing the operation
-        // completion
+        // completion; complete_with_done() destroys the stop callback.
         return;
       }
+
+      // We own the completion: deregister the stop callback (waits for a
+      // concurrent invocation, which has lost the election, to return).
+      self.stopCallback_.destruct();
 
       epoll_event event = {};
       (void)epoll_ctl(
@@ -666,6 +668,10 @@ class io_epoll_context::read_sender {
       if (static_cast<completion_base&>(self).enqueued_.load() == 0) {
         // Avoid instantiating set_done() if we're not going to call it.
         if constexpr (is_stop_ever_possible) {
+          // The stop callback that scheduled us may still be returning on
+          // another thread: its destructor waits for it, so that the receiver
+          // can safely destroy the operation.
+          self.stopCallback_.destruct();
           unifex::set_done(std::move(self.receiver_));
         } else {
           // This should never be called if stop is not possible.
@@ -851,8 +857,6 @@ class io_epoll_context::write_sender {
 
       UNIFEX_ASSERT(static_cast<completion_base&>(self).enqueued_.load() == 0);
 
-      self.stopCallback_.destruct();
-
       epoll_event event = {};
       (void)epoll_ctl(
           self.context_.epollFd_.get(), EPOLL_CTL_DEL, self.fd_, &event);
@@ -865,9 +869,13 @@ class io_epoll_context::write_sender {
                Receiver>::cancel_pending_mask) != 0) {
         // io has been cancelled by a remote thread.
         // The other thread is responsible for enqueueing the operation
-        // completion
+        // completion; complete_with_done() destroys the stop callback.
         return;
       }
+
+      // We own the completion: deregister the stop callback (waits for a
+      // concurrent invocation, which has lost the election, to return).
+      self.stopCallback_.destruct();
 
       auto result = writev(self.fd_, self.buffer_, 1);
       if (result < 0) {
@@ -905,6 +913,10 @@ class io_epoll_context::write_sender {
       if (static_cast<completion_base&>(self).enqueued_.load() == 0) {
         // Avoid instantiating set_done() if we're not going to call it.
         if constexpr (is_stop_ever_possible) {
+          // The stop callback that scheduled us may still be returning on
+          // another thread: its destructor waits for it, so that the receiver
+          // can safely destroy the operation.
+          self.stopCallback_.destruct();
           unifex::set_done(std::move(self.receiver_));
         } else {
           // This should never be called if stop is not possible.
